@@ -111,6 +111,39 @@ theorem c09_boostX_beta_zero (v : V4) : bXβ 0 v = v := by
   simp only [d_lorentz_boostX_beta, h1]
   refine Prod.ext ?_ (Prod.ext rfl (Prod.ext rfl ?_)) <;> simp
 
+theorem c09_boostY_beta_zero (v : V4) : bYβ 0 v = v := by
+  obtain ⟨x, y, z, t⟩ := v
+  have h1 : P.rpow (1 - (0 : ℝ) ^ 2) (-(0.5 : ℝ)) = 1 := by
+    show Real.rpow (1 - (0 : ℝ) ^ 2) (-(0.5 : ℝ)) = 1
+    norm_num
+  simp only [d_lorentz_boostY_beta, h1]
+  refine Prod.ext rfl (Prod.ext ?_ (Prod.ext rfl ?_)) <;> simp
+
+theorem c09_boostZ_beta_zero (v : V4) : bZβ 0 v = v := by
+  obtain ⟨x, y, z, t⟩ := v
+  have h1 : P.rpow (1 - (0 : ℝ) ^ 2) (-(0.5 : ℝ)) = 1 := by
+    show Real.rpow (1 - (0 : ℝ) ^ 2) (-(0.5 : ℝ)) = 1
+    norm_num
+  simp only [d_lorentz_boostZ_beta, h1]
+  refine Prod.ext rfl (Prod.ext rfl (Prod.ext ?_ ?_)) <;> simp
+
+/-- orthochronous, past side: a past-directed vector stays past-directed -/
+theorem c09_boostZ_beta_orthochronous_past (β : ℝ) (v : V4) (hβ : |β| < 1) (ht : v.2.2.2 < -|v.2.2.1|) :
+    (bZβ β v).2.2.2 < 0 := by
+  obtain ⟨x, y, z, t⟩ := v
+  have hg := g_pos hβ
+  simp only [d_lorentz_boostZ_beta]
+  set g := P.rpow (1 - β ^ 2) (-(0.5 : ℝ))
+  have h1 : |β * z| ≤ |z| := by
+    rw [abs_mul]; exact mul_le_of_le_one_left (abs_nonneg z) hβ.le
+  have h2 := le_abs_self (β * z)
+  have hk : t + β * z < 0 := by
+    have : t < -|z| := ht
+    linarith
+  show β * g * z + g * t < 0
+  have : β * g * z + g * t = g * (t + β * z) := by ring
+  rw [this]; exact mul_neg_of_pos_of_neg hg hk
+
 -- hypotheses satisfiable
 example : |(0.5 : ℝ)| < 1 ∧ |((1, 0, 0, 2) : V4).1| < ((1, 0, 0, 2) : V4).2.2.2 := by
   constructor
